@@ -1,12 +1,12 @@
 SPECIFICATION Spec
 CONSTANTS
   MaxLen = 3
-  Symbols = {1, 2, 3, 4, 5, 8, 9, 10, 11}
+  Symbols = {1, 3, 4, 5, 9, 10, 11}
   SegIMs = {1, 2, 3}
   TofIMs = {1, 2, 3}
-  FrameIds = {0, 1, 2}
-  StoreIds = {1, 2, 3}
-  NStores = {0, 1, 2}
+  FrameIds = {1}
+  StoreIds = {1}
+  NStores = {0}
   Freshes = {TRUE}
   MaxSegs = {1}
   FixEmpty = TRUE
